@@ -67,6 +67,21 @@ CHECKS = {
         design_ref='DESIGN.md 4/C05',
         note='Positions, paths and edge action names are not compared. Only 4.x syntax is generated.',
     ),
+    'C19': dict(
+        engine='oracle-server laws action (harness/cpp/laws.h) + Hypothesis model / query / tree generators (harness/py/prop_C19.py)',
+        technique='property-based testing of algebraic laws through the public expression_t API inside a sanitized process: clone/subst/equal laws and single-node perturbations on every expression of generated models, every query form and random operator trees',
+        category='exploration',
+        text=('For every expression of generated documents (labels, initialisers with LIST nodes, function bodies with FUN_CALL, '
+              'instantiation arguments), of every query form on three model flavours and of random untyped operator trees the '
+              'laws of the statement are evaluated: deep clones are equal, share no node and are independent under set_type and '
+              'child replacement; subst replaces exactly the IDENTIFIER nodes of the symbol (compared with a textual replacement '
+              'on the canonical dump), is pure and is the identity for s:=s and for absent symbols; equal is reflexive, '
+              'symmetric, transitive, implies equal text and distinguishes every single-node perturbation; every child index '
+              'below get_size() is accessed under ASan. 143 node kinds occur in a quick run.'),
+        design_ref='DESIGN.md 4/C19',
+        note=('An under-reported child count is not observable through the public API (over-reporting is, under ASan). '
+              'Types attached to nodes are not part of the substitution comparison.'),
+    ),
     'C20': dict(
         engine='oracle-server write action + Hypothesis model generator + xml.dom.minidom (harness/py/prop_C20.py)',
         technique='round-trip property testing through an independent reader: generated accepted models -> write_XML_file -> Python minidom -> compared with the document (ids, names, labels, init, endpoints, controllable, selects)',
